@@ -318,6 +318,17 @@ func runC11(r *Run) {
 			if k == 1 {
 				transcriptCheckCfg(r, perturbConfig(in), true)
 				r.Discharge()
+				// the transcript does not depend on the grinding difficulty either (the witness is always absorbed)
+				for _, b := range []uint64{0, 1} {
+					pc := *in
+					pc.Name = fmt.Sprintf("%s/proof_of_work_bits=%d", in.Name, b)
+					c := in.Common
+					c.Config.FriConfig.ProofOfWorkBits = b
+					c.FriParams.Config.ProofOfWorkBits = b
+					pc.Common = c
+					transcriptCheckCfg(r, &pc, true)
+					r.Discharge()
+				}
 			}
 		}
 	}
@@ -506,7 +517,7 @@ func transcriptCheckCfg(r *Run, in *instance, perturbed bool) {
 		if diff >= 0 {
 			label := p.label
 			if perturbed {
-				r.addViolationStructural("transcript depends on unrelated description fields", fmt.Sprintf("%s: with description fields other than num_challenges changed (num_constants, num_wires, num_routed_wires, security_bits, max_quotient_degree_factor, num_gate_constraints, num_partial_products, quotient_degree_factor) challenge %s is no longer the one plonky2's transcript yields", in.Name, label))
+				r.addViolationStructural("transcript depends on unrelated description fields", fmt.Sprintf("%s: with description fields other than num_challenges changed (num_constants, num_wires, num_routed_wires, security_bits, max_quotient_degree_factor, num_gate_constraints, num_partial_products, quotient_degree_factor; or the grinding difficulty, as the name says) challenge %s is no longer the one plonky2's transcript yields", in.Name, label))
 				return
 			}
 			// replay: the real circuit must reject the honest proof if its challenges differ from plonky2's
